@@ -5,6 +5,7 @@
 #include "pgm/pgm_index.hpp"
 #include "pgm/pgm_index_variants.hpp"
 #include "vf_gen.hpp"
+#include "vf_life.hpp"
 #include <array>
 #include <map>
 #include <memory>
@@ -243,6 +244,8 @@ void md_case(Ctx &c) {
     std::vector<Tup> tp;
     for (auto &p : mc.pts) tp.push_back(to_tuple<T, D>(p));
     std::unique_ptr<Idx> xp(new Idx(tp.begin(), tp.end()));
+    // half of the cases query a copied / moved-to / assigned-to / relocated object whose source is gone (vf_life.hpp)
+    xp = object_lifecycle(c, std::move(xp), n > (size_t(1) << 20) ? 0 : int(mix(c.input_hash, 0x11fec7c1e) % 8));
     Idx &x = *xp;
     std::map<P, size_t> ms;
     for (auto &p : mc.pts) ++ms[p];
